@@ -912,6 +912,141 @@ def r6_9(ctx):
     ctx.floor("R6.9", n, 6, "handlers that produce untagged data")
 
 
+def _num_eval(e, env, consts):
+    """Value of a small arithmetic expression over numbers, names in env/consts, min/max; None when not evaluable."""
+    if isinstance(e, ast.Constant) and isinstance(e.value, (int, float)) and not isinstance(e.value, bool):
+        return e.value
+    if isinstance(e, ast.Name):
+        return env.get(e.id, consts.get(e.id))
+    if isinstance(e, ast.Attribute):
+        return env.get(norm(e), consts.get(e.attr))
+    if isinstance(e, ast.UnaryOp) and isinstance(e.op, ast.USub):
+        v = _num_eval(e.operand, env, consts)
+        return None if v is None else -v
+    if isinstance(e, ast.BinOp):
+        l, r = _num_eval(e.left, env, consts), _num_eval(e.right, env, consts)
+        if l is None or r is None:
+            return None
+        try:
+            if isinstance(e.op, ast.Add): return l + r
+            if isinstance(e.op, ast.Sub): return l - r
+            if isinstance(e.op, ast.Mult): return l * r
+            if isinstance(e.op, ast.Div): return l / r
+            if isinstance(e.op, ast.FloorDiv): return l // r
+            if isinstance(e.op, ast.Pow): return l ** r if abs(r) < 64 else None
+        except (ZeroDivisionError, OverflowError):
+            return None
+        return None
+    if isinstance(e, ast.Call) and isinstance(e.func, ast.Name) and e.func.id in ("min", "max", "float", "int") and e.args and not e.keywords:
+        vs = [_num_eval(a, env, consts) for a in e.args]
+        if any(v is None for v in vs):
+            return None
+        return {"min": min, "max": max, "float": lambda *a: float(a[0]), "int": lambda *a: int(a[0])}[e.func.id](*vs)
+    return None
+
+
+def _test_eval(t, env, consts):
+    if isinstance(t, ast.Compare) and len(t.ops) == 1:
+        l, r = _num_eval(t.left, env, consts), _num_eval(t.comparators[0], env, consts)
+        if l is None or r is None:
+            return None
+        op = t.ops[0]
+        return {ast.Gt: l > r, ast.GtE: l >= r, ast.Lt: l < r, ast.LtE: l <= r, ast.Eq: l == r, ast.NotEq: l != r}.get(type(op))
+    if isinstance(t, ast.UnaryOp) and isinstance(t.op, ast.Not):
+        v = _test_eval(t.operand, env, consts)
+        return None if v is None else (not v)
+    if isinstance(t, ast.BoolOp):
+        vs = [_test_eval(v, env, consts) for v in t.values]
+        if isinstance(t.op, ast.And):
+            return False if any(v is False for v in vs) else (None if any(v is None for v in vs) else True)
+        return True if any(v is True for v in vs) else (None if any(v is None for v in vs) else False)
+    return None
+
+
+def _policy_returns(stmts, env, consts, out):
+    """Collect the (abandon, delay) pairs the policy can return with the retry count fixed in env; True when every path
+    through stmts has returned."""
+    for s in stmts:
+        if isinstance(s, ast.Return):
+            out.append(s.value)
+            return True
+        if isinstance(s, ast.Assign) and len(s.targets) == 1 and isinstance(s.targets[0], ast.Name):
+            v = _num_eval(s.value, env, consts)
+            if v is not None:
+                env = dict(env)
+                env[s.targets[0].id] = v
+            else:
+                env = {k: v_ for k, v_ in env.items() if k != s.targets[0].id}
+        elif isinstance(s, ast.If):
+            tv = _test_eval(s.test, env, consts)
+            if tv is True:
+                if _policy_returns(s.body, env, consts, out):
+                    return True
+            elif tv is False:
+                if _policy_returns(s.orelse, env, consts, out):
+                    return True
+            else:
+                a = _policy_returns(s.body, env, consts, out)
+                b = _policy_returns(s.orelse, env, consts, out) if s.orelse else False
+                if a and b:
+                    return True
+        elif isinstance(s, (ast.Try, ast.With, ast.For, ast.While, ast.Match)):
+            out.append(None)  # not a shape this evaluator follows
+    return False
+
+
+def r6_12(ctx):
+    """A db write that hits sqlite's transient `readonly database` error is retried by aioretry under
+    Database._execute_retry_policy, inside the command that issued it - so inside the command's COMMAND_TIMEOUT watchdog.
+    The policy gives up after finitely many failures and the pauses it asks for add up to less than the watchdog: otherwise the
+    command (and everything queued behind it on the mailbox) is answered by the watchdog's BAD instead of its own reply.
+    Decided by evaluating the policy's arithmetic for fails = 1, 2, ... (tests on the exception are taken both ways)."""
+    p = ctx.p
+    fi = p.func("db.Database._execute_retry_policy")
+    ctx.analysed(fi)
+    dec = [f for f in p.functions.values() if f.module == "db" and any("retry" in norm(d) and "_execute_retry_policy" in norm(d) for d in f.node.decorator_list)]
+    ctx.floor("R6.12", len(dec), 1, "db methods retried under _execute_retry_policy")
+    consts = {}
+    for mod in ("db", "client"):
+        for s in p.modules[mod].tree.body:
+            if isinstance(s, ast.Assign) and len(s.targets) == 1 and isinstance(s.targets[0], ast.Name):
+                v = _num_eval(s.value, {}, consts if mod == "db" else {})
+                if v is not None and (mod == "db" or s.targets[0].id == "COMMAND_TIMEOUT"):
+                    consts[s.targets[0].id] = v
+    limit = consts.get("COMMAND_TIMEOUT")
+    ctx.require(limit is not None, "client.COMMAND_TIMEOUT is no longer a numeric constant", anchor=True)
+    arg = fi.node.args.args[1].arg if len(fi.node.args.args) > 1 else "info"
+    total = 0.0
+    gave_up = None
+    for fails in range(1, 65):
+        out = []
+        _policy_returns(fi.node.body, {f"{arg}.fails": fails}, consts, out)
+        delays = []
+        for rv in out:
+            if rv is None or not (isinstance(rv, ast.Tuple) and len(rv.elts) == 2):
+                ctx.bad("R6.12", fi.module, fi.qual, norm(rv, 60) if rv is not None else "compound statement", "the retry policy is no longer a chain of tests and `return abandon, delay` pairs: its total pause cannot be bounded", fi.node.lineno)
+                return
+            ab, d = rv.elts
+            if isinstance(ab, ast.Constant) and ab.value is True:
+                continue
+            dv = _num_eval(d, {f"{arg}.fails": fails}, consts)
+            if dv is None:
+                ctx.bad("R6.12", fi.module, fi.qual, norm(rv, 60), "the pause before a retry is not an arithmetic expression of the failure count and constants: it cannot be bounded against the command watchdog", rv.lineno)
+                return
+            delays.append(dv)
+        if not delays:
+            gave_up = fails
+            break
+        total += max(delays)
+    if gave_up is None:
+        ctx.bad("R6.12", fi.module, fi.qual, "info.fails > N", "the retry policy never gives up (no failure count at which every path returns abandon=True): a persistent db error keeps the command - and the mailbox's queue - waiting for ever", fi.node.lineno)
+    elif total >= limit:
+        ctx.bad("R6.12", fi.module, fi.qual, f"sum of pauses = {total:g}s over {gave_up - 1} retries", f"the pauses of the db retry policy add up to {total:g}s, not less than the {limit:g}s command watchdog: one transient `readonly database` error turns the command's reply into `BAD Command timed out` and stalls the commands queued behind it", fi.node.lineno)
+    else:
+        ctx.ok("R6.12", where(fi), f"gives up at the {gave_up}th failure; pauses add up to {total:g}s < COMMAND_TIMEOUT {limit:g}s")
+
+
+
 def run(ctx):
     ctx.do(r6_1)
     ctx.do(r6_2)
@@ -924,6 +1059,7 @@ def run(ctx):
     ctx.do(r6_7b)
     ctx.do(r6_10)
     ctx.do(r6_11)
+    ctx.do(r6_12)
     from . import c07 as _c07
     ctx.do(_c07.r7_8)  # one tagged reply per command: error texts cannot carry a line break into the reply
     from . import c01
